@@ -8,6 +8,9 @@ import GfaModel.Version
 import GfaModel.Multiply
 import GfaModel.Convert
 import GfaModel.Components
+import GfaModel.Seq
+import GfaModel.Line
+import GfaModel.Levels
 /- Line protocol of the model driver: `op US arg US arg …` → one reply line. -/
 namespace Gfa
 namespace Driver
@@ -102,6 +105,46 @@ def parseTagVal (kind : String) (p : List Char) : Option TagVal :=
   | "intarr" => if p.isEmpty then some (.intArr []) else ((Field.splitOn ',' p).mapM intOf?).map .intArr
   | _ => none
 
+/-- run a script of field operations at one validation level; one result token per operation -/
+def lvlRun {V : Type} (c : Lvl.Codec V) (mk : List Char → Option V) (k : Nat) (delayed : Bool) (text : List Char)
+    (ops : List String) : String :=
+  match Lvl.initF c k delayed text with
+  | none => "init:err"
+  | some cell0 =>
+    let rec go (cell : Lvl.Cell V) (ops : List String) (acc : List String) : List String :=
+      match ops with
+      | [] => acc.reverse
+      | o :: rest =>
+        if o == "get" then
+          (match Lvl.getF c k cell with
+          | some cell' => go cell' rest ("get:ok" :: acc)
+          | none => go cell rest ("get:err" :: acc))
+        else if o == "write" then
+          (match Lvl.writeF c k cell with
+          | some t => go cell rest (("write:" ++ str t) :: acc)
+          | none => go cell rest ("write:err" :: acc))
+        else if o == "validate" then
+          go cell rest ((if Lvl.validateF c cell then "validate:ok" else "validate:err") :: acc)
+        else if o.startsWith "setraw:" then
+          (match Lvl.setF c k (.raw (o.toList.drop 7)) with
+          | some cell' => go cell' rest ("set:ok" :: acc)
+          | none => go cell rest ("set:err" :: acc))
+        else if o.startsWith "setval:" then
+          (match mk (o.toList.drop 7) with
+          | some v => (match Lvl.setF c k (.val v) with
+            | some cell' => go cell' rest ("set:ok" :: acc)
+            | none => go cell rest ("set:err" :: acc))
+          | none => go cell rest ("bad-op" :: acc))
+        else go cell rest ("bad-op" :: acc)
+    "init:ok " ++ " ".intercalate (go cell0 ops [])
+
+def lvlScript (dt : String) (k : Nat) (delayed : Bool) (text : List Char) (ops : List String) : String :=
+  match dt with
+  | "i" => lvlRun Lvl.intCodec intOf? k delayed text ops
+  | "Z" => lvlRun Lvl.strCodec (fun s => some s) k delayed text ops
+  | "H" => lvlRun Lvl.bytesCodec (fun s => if s.isEmpty then some [] else (Field.splitOn ',' s).mapM natOf?) k delayed text ops
+  | _ => "bad-op"
+
 /-- stateless commands -/
 def pure? (cmd : String) (args : List (List Char)) : Option String :=
   match cmd, args with
@@ -179,6 +222,26 @@ def pure? (cmd : String) (args : List (List Char)) : Option String :=
         s!"ok {p e.b1 nf} {p e.e1 nf} {p e.b2 nt} {p e.e2 nt} | {back}"
       | _, _, _, _, _ => "err")
     | _, _ => "bad-op")
+  | "seq.rc", [q] =>
+    some (match Seq.rc q with | some r => "ok " ++ str r | none => "gerr ValueError")
+  | "seq.spell", members =>
+    -- each member: seq US-separated triple encoded as  seq,reversed(0/1),cut
+    some (match members.mapM (fun m => match Field.splitOn ',' m with
+        | [q, [r], c] => (natOf? c).map (fun n => (⟨q, r == '1', n⟩ : Seq.Member))
+        | _ => none) with
+      | some ms => (match Seq.spell ms with | some r => "ok " ++ str r | none => "gerr ValueError")
+      | none => "bad-op")
+  | "line.parse", [n, l] =>
+    some (match natOf? n with
+    | some n => (match Line.parseLine n l with
+      | some pl => "ok " ++ str pl.rt ++ "|" ++ "|".intercalate (pl.pos.map str) ++ "|#" ++
+          "|".intercalate (pl.tags.map (fun t => str (Line.printTag t))) ++ "|=" ++ str (Line.writeLine pl)
+      | none => "err")
+    | none => "bad-op")
+  | "lvl.script", dt :: k :: delayed :: text :: ops =>
+    some (match natOf? k with
+    | some k => lvlScript (str dt) k (delayed = ['1']) text (ops.map str)
+    | none => "bad-op")
   | "geo.edge", [o1, n1, b1, e1, o2, n2, b2, e2] =>
     some (match o1, o2 with
     | [c1], [c2] =>
